@@ -10,3 +10,4 @@ import OsyrisProofs.C13
 #print axioms Osyris.Readers.expReads_offs
 #print axioms Osyris.C13.vectorMerges_sound
 #print axioms Osyris.Layout.totalBytes_varBlock_hydro
+#print axioms Osyris.C13.C13_shared_component_witness
